@@ -1,6 +1,6 @@
 import Gen.Namespace
 import Model.Namespace
-import Bridge.Symbolic
+import Bridge.Basic
 /-!
   Bridge between the cross-definition checks GENERATED from `pydsdl/_namespace.py` (`Gen/Namespace.lean`, rewritten from
   the working tree of /repo on every run) and the model `Model/Namespace.lean`:
